@@ -14,6 +14,7 @@ structure D where
   accts : List Bytes
   addrs : List Bytes
   heights : List Nat
+  mainnet : Bool := false
 
 def D.init : D := { st := State.empty 0, live := false, ids := [], accts := [], addrs := [], heights := [] }
 
@@ -79,7 +80,13 @@ def stepOpt (d : D) (ws : List String) : Option (D × String) :=
   | ["reset", h] => do
     let h ← h.toNat?
     -- the public-key cache is a process-wide LevelDB: it survives the reset of the account state
-    pure ({ D.init with st := { State.empty h with pk := d.st.pk }, live := true, heights := [h] }, "ok")
+    pure ({ D.init with st := { State.empty h with pk := d.st.pk }, live := true, heights := [h], mainnet := d.mainnet }, "ok")
+  | ["config", c] =>
+    -- fork schedule: every flag on the miner path has the modelled value beyond the network's last proposal;
+    -- the one network-dependent branch is `IsMainnet() && type == proposer` in minerApplyExecutor
+    if c == "dev" ∨ c == "robin" then some ({ d with mainnet := false }, "ok")
+    else if c == "mainnet" then some ({ d with mainnet := true }, "ok")
+    else none
   | _ =>
     if !d.live then none else
     match ws with
@@ -101,7 +108,11 @@ def stepOpt (d : D) (ws : List String) : Option (D × String) :=
       let src ← ofHex? src; let id ← ofHex? id; let t ← t.toNat?; let s ← s.toNat?
       let ac ← ofHex? ac; let pk ← ofHex? pk; let vrf ← ofHex? vrf
       if s > maxU64 then none
-      pure (doTx d (.apply src id t s ac pk vrf))
+      if d.mainnet ∧ t = typeProposer then
+        -- "mainnet not support Proposer": rejected right after the JSON parse, i.e. a rejected transaction
+        let r := doTx d (.bad .applyJson src)
+        pure (r.1, if r.2 = "fail:json" then "fail:mainnet" else r.2)
+      else pure (doTx d (.apply src id t s ac pk vrf))
     | ["add", src, id, dl] => do
       let src ← ofHex? src; let id ← ofHex? id; let dl ← dl.toNat?
       if dl > maxU64 then none
